@@ -89,15 +89,24 @@ Record gcase := {
   gc_slices : list gslice;             (* every ObjectSlice at the instant of the collection *)
   gc_deleted : list N;                 (* observation: the Delete requests *)
   gc_want : list (list N);             (* the chunks (by content) the chunker returned for each phase of the update *)
-  gc_got : list (list N)               (* observation: the contents of the slices the stored template names, per phase *)
+  gc_got : list (list N);              (* observation: the contents of the slices the stored template names, per phase *)
+  gc_foreign : list N;                 (* slices of OTHER namespaces that a deployment template or an ObjectSet there references *)
+  gc_redeploy : bool;                  (* this step redeploys the unchanged package (same phases, same chunks as the step before) *)
+  gc_prev : list (list N);             (* ... the slice names the template had after that step *)
+  gc_created : list N                  (* observation: the slices created by this step *)
 }.
 
-Definition gagree (c : gcase) : bool :=
-  list_eqb N.eqb (slice_gc (gc_tmpl c) (gc_sets c) (gc_slices c)) (gc_deleted c).
+(** Slices are numbered by (namespace, name); those referenced from other namespaces are never in the collector's list. *)
+Definition gwf (c : gcase) : bool :=
+  forallb (fun s => negb (gs_labelled s && existsb (N.eqb (gs_name s)) (gc_foreign c))) (gc_slices c).
 
-(** No deleted slice is named by the template or by an ObjectSet of the deployment. *)
+Definition gagree (c : gcase) : bool :=
+  list_eqb N.eqb (slice_gc (gc_tmpl c) (gc_sets c) (gc_slices c)) (gc_deleted c) && gwf c.
+
+(** No deleted slice is named by the template or by an ObjectSet of the deployment, nor - in whatever namespace of
+    the cluster it lives - by another deployment's template or an ObjectSet next to it. *)
 Definition gmonitor (c : gcase) : bool :=
-  forallb (fun n => negb (existsb (N.eqb n) (concat (gc_tmpl c))) &&
+  forallb (fun n => negb (existsb (N.eqb n) (concat (gc_tmpl c))) && negb (existsb (N.eqb n) (gc_foreign c)) &&
                     forallb (fun s => negb (g_listed s) || negb (existsb (N.eqb n) (concat (g_refs s)))) (gc_sets c))
           (gc_deleted c).
 
@@ -105,38 +114,63 @@ Definition gmonitor (c : gcase) : bool :=
     name the template references is the content that was to be stored (no name was reused for other content). *)
 Definition hmonitor (c : gcase) : bool := list_eqb (list_eqb N.eqb) (gc_got c) (gc_want c).
 
-Definition gjudge (c : gcase) : bool * bool * bool := (gagree c, gmonitor c, hmonitor c).
+(** Redeploying the unchanged package creates no slice and keeps the names ("names are determined by content"). *)
+Definition rmonitor (c : gcase) : bool :=
+  negb (gc_redeploy c) || (is_nil (gc_created c) && list_eqb (list_eqb N.eqb) (gc_tmpl c) (gc_prev c)).
+
+Definition gjudge (c : gcase) : bool * bool * bool * bool := (gagree c, gmonitor c, hmonitor c, rmonitor c).
 
 Definition got_of (st : nstore N) (ls : list (list (N * N * bool))) : list (list N) :=
   map (map (fun x => match content_of st (fst (fst x)) with Some c => c | None => 999999999 end)) ls.
 
-Theorem hmonitor_sound table st phases st' ls tmpl sets slices deleted :
+Theorem hmonitor_sound table st phases st' ls (c : gcase) :
   chunk_phases N.eqb (tbl_hash table) st phases = (st', Some ls) ->
-  hmonitor {| gc_tmpl := tmpl; gc_sets := sets; gc_slices := slices; gc_deleted := deleted;
-              gc_want := phases; gc_got := got_of st' ls |} = true.
+  gc_want c = phases -> gc_got c = got_of st' ls -> hmonitor c = true.
 Proof.
-  intros H. destruct (chunk_phases_lossless N.eqb N.eqb_eq (tbl_hash table) _ _ _ _ H) as [Hm _].
-  unfold hmonitor, got_of. cbn [gc_got gc_want]. apply list_list_eqb_N_spec. clear H.
+  intros H Hw Hg. destruct (chunk_phases_lossless N.eqb N.eqb_eq (tbl_hash table) _ _ _ _ H) as [Hm _].
+  unfold hmonitor. rewrite Hw, Hg. unfold got_of. apply list_list_eqb_N_spec. clear H Hw Hg.
   revert ls Hm. induction phases as [|ph r IH]; intros [|l ls] Hm; try discriminate; [reflexivity|].
   cbn [map] in *. injection Hm as Hl Hr. rewrite (IH _ Hr). f_equal.
-  clear -Hl. revert l Hl. induction ph as [|c cs IHc]; intros [|x l] Hl; try discriminate; [reflexivity|].
+  clear -Hl. revert l Hl. induction ph as [|c0 cs IHc]; intros [|x l] Hl; try discriminate; [reflexivity|].
   cbn [map] in *. injection Hl as Hx Hl. rewrite Hx, (IHc _ Hl). reflexivity.
 Qed.
 
-Theorem gmonitor_sound tmpl sets slices :
-  forall want got,
-  gmonitor {| gc_tmpl := tmpl; gc_sets := sets; gc_slices := slices; gc_deleted := slice_gc tmpl sets slices;
-              gc_want := want; gc_got := got |} = true.
+Definition names_of (ls : list (list (N * N * bool))) : list (list N) := map (map (fun x => fst (fst x))) ls.
+Definition created_of (ls : list (list (N * N * bool))) : list N :=
+  concat (map (fun l => map (fun x => fst (fst x)) (filter (fun x => snd x) l)) ls).
+
+(** Redeploying the unchanged package in the model: the second run exists, and any observation that reports its
+    names and creations satisfies the redeploy monitor. *)
+Theorem rmonitor_sound table st phases st1 ls :
+  chunk_phases N.eqb (tbl_hash table) st phases = (st1, Some ls) ->
+  exists ls2, chunk_phases N.eqb (tbl_hash table) st1 phases = (st1, Some ls2) /\
+    forall c : gcase, gc_tmpl c = names_of ls2 -> gc_prev c = names_of ls -> gc_created c = created_of ls2 -> rmonitor c = true.
 Proof.
-  intros want got.
-  unfold gmonitor. cbn [gc_deleted gc_tmpl gc_sets]. apply forallb_forall. intros n Hn.
-  destruct (gc_safe _ _ _ _ Hn) as [Ht Hs]. rewrite andb_true_iff. split.
-  - apply negb_true_iff. destruct (existsb (N.eqb n) (concat tmpl)) eqn:E; [|reflexivity].
+  intros H. exists (map (@reused) ls). split; [exact (redeploy_unchanged N.eqb N.eqb_eq (tbl_hash table) _ _ _ _ H)|].
+  intros c Ht Hp Hc. unfold rmonitor. destruct (gc_redeploy c); [|reflexivity]. cbn [negb orb].
+  rewrite Ht, Hp, Hc. rewrite andb_true_iff. split.
+  - unfold created_of, reused. clear. induction ls as [|l ls IH]; [reflexivity|]. cbn [map concat].
+    assert (Hn : map (fun x : N * N * bool => fst (fst x)) (filter (fun x => snd x) (map (fun x : N * N * bool => (fst (fst x), snd (fst x), false)) l)) = []).
+    { induction l as [|x l IHl]; [reflexivity|exact IHl]. }
+    rewrite Hn. exact IH.
+  - apply list_list_eqb_N_spec. unfold names_of, reused. rewrite map_map. apply map_ext. intros l. rewrite map_map. now apply map_ext.
+Qed.
+
+
+Theorem gmonitor_sound (c : gcase) :
+  gc_deleted c = slice_gc (gc_tmpl c) (gc_sets c) (gc_slices c) -> gwf c = true -> gmonitor c = true.
+Proof.
+  intros Hd Hwf. unfold gmonitor. rewrite Hd. apply forallb_forall. intros n Hn.
+  destruct (gc_safe _ _ _ _ Hn) as [Ht Hs]. rewrite !andb_true_iff. repeat split.
+  - apply negb_true_iff. destruct (existsb (N.eqb n) (concat (gc_tmpl c))) eqn:E; [|reflexivity].
     apply existsb_Neqb in E. apply in_concat in E. destruct E as (ph & H1 & H2). exfalso. exact (Ht ph H1 H2).
+  - apply gc_only_labelled in Hn. destruct Hn as (s & Hin & Hname & Hl).
+    unfold gwf in Hwf. rewrite forallb_forall in Hwf. specialize (Hwf s Hin). rewrite Hl, Hname in Hwf. exact Hwf.
   - apply forallb_forall. intros s Hin. destruct (g_listed s) eqn:El; [|reflexivity]. cbn.
     apply negb_true_iff. destruct (existsb (N.eqb n) (concat (g_refs s))) eqn:E; [|reflexivity].
     apply existsb_Neqb in E. apply in_concat in E. destruct E as (ph & H1 & H2). exfalso. exact (Hs s ph Hin El H1 H2).
 Qed.
+
 
 (** * (c) sliced ObjectSet vs inline ObjectSet *)
 
